@@ -14,7 +14,8 @@ def run(ctx, res):
                       "C09.order (the comparator of that sort orders keys by UTF-16 code units: Iterator::cmp over encode_utf16() of both keys)",
                       "C08.table / C08.nows (strings minimally escaped, no whitespace) — shared with C08"]
     cover_rule(ctx, res, "C09.cover")
-    order_rule(ctx, res, "C09.order")
+    from . import C06
+    C06.model_rule(ctx, res, rule="C09.order", ops={"canonicalize_with"})
     from . import C08, C13
     C08.table_rule(ctx, res, "C08.table")
     C08.preset_rule(ctx, res)
